@@ -535,11 +535,11 @@ def rand_notices(rng, n):
 def rand_text_body(rng, pool, style, full=None):
     r = rng.random() if full is None else (0.0 if full else 0.99)
     b = {"t": "text", "style": style, "cop": [], "lic": []}
-    if r < 0.62:
+    if r < 0.70:
         b["cop"], b["lic"] = rand_notices(rng, rng.randint(1, 2)), [rc.rand_expr(rng, pool) for _ in range(rng.randint(1, 2))]
-    elif r < 0.70:
+    elif r < 0.76:
         b["cop"] = rand_notices(rng, 1)
-    elif r < 0.78:
+    elif r < 0.82:
         b["lic"] = [rc.rand_expr(rng, pool)]
     elif r < 0.90:
         pass
@@ -612,7 +612,7 @@ def gen_case(rng):
         for d in tdirs:
             below = [f for f in files if (f.startswith(d + "/") if d else True)]
             tables = []
-            if d == "" and rng.random() < 0.55:
+            if d == "" and rng.random() < 0.75:
                 tables.append({"globs": ["**"], "prec": None, "cop": rand_notices(rng, 1), "lic": [rc.rand_expr(rng, pool)]})
             for _ in range(rng.randint(1, 3)):
                 gs = []
@@ -689,7 +689,7 @@ def gen_case(rng):
             names.append(name)
             if rng.random() < 0.12:
                 names.append(name + ".license")
-        for _ in range(rng.choice([0, 0, 0, 1, 1, 2])):
+        for _ in range(rng.choice([0, 0, 0, 0, 1, 1, 2])):
             k = rng.random()
             if k < 0.25 and names:
                 names.remove(rng.choice(names))
@@ -705,6 +705,10 @@ def gen_case(rng):
                 names.append(".keep")
             else:
                 names.append("sub/README")
+        dup = None
+        if rng.random() < 0.02 and names:
+            n0 = names[0].rsplit("/", 1)[-1]
+            dup = "dup/" + n0.rsplit(".", 1)[0] + ".text"      # a second text for one identifier: the tool stops
         seen = []
         for n in names:
             if n not in seen and rc.dup_free({"lic": [m for m in seen + [n] if not any(part.startswith(".") for part in m.split("/"))]}):
@@ -714,6 +718,8 @@ def gen_case(rng):
                 add_path(tree, "LICENSES/" + n, ["f", {"t": "raw", "s": "licence text of %s\n" % n}])
             if not seen:
                 add_path(tree, "LICENSES/.keep", ["f", {"t": "empty"}])
+            if dup and names[0] in seen:
+                add_path(tree, "LICENSES/" + dup, ["f", {"t": "raw", "s": "again\n"}])
         elif rng.random() < 0.5:
             add_path(tree, "LICENSES", ["f", {"t": "raw", "s": "a file, not a directory\n"}])
     return case
@@ -742,7 +748,7 @@ class E2EModelStream(Stream):
         self._pending = []
 
     def cases(self, tier, rng):
-        n = {"quick": 170, "thorough": 2500}[tier]
+        n = {"quick": 450, "thorough": 4000}[tier]
         out = [gen_case(rng) for _ in range(n)]
         self._pending = list(out)
         return out
@@ -800,6 +806,10 @@ class E2EModelStream(Stream):
             if g != e:
                 return "attribution: %s: the tool attributes %s, the sources and precedence rules give %s" % (
                     p, [json.loads(x) for x in g if x not in e], [json.loads(x) for x in e if x not in g])
+        ln = node_at(case["tree"], "LICENSES")
+        if ln is not None and ln[0] == "f" and ["LICENSES", "LICENSES"] in got["bad"]:
+            return ("licenses-regular-file: a regular file called LICENSES is itself read as a licence text named 'LICENSES' "
+                    "(bad %s, unused %s)" % (got["bad"], got["unused"]))
         if (got["exit"] == 0) != (not exp["violated"]):
             kind = rc.diff_kind({"lic": exp["lic_names"]}, got, exp, CATS)
             if kind and not kind.startswith("category-mismatch"):
@@ -812,6 +822,8 @@ class E2EModelStream(Stream):
     def classify(self, case, failure):
         if failure.startswith("spdx-name-with-identifier-stem"):
             return "extensionless-id-with-identifier-stem"
+        if failure.startswith("licenses-regular-file"):
+            return "licenses-is-a-regular-file"
         return None
 
     def nontrivial(self, case, impl_out):
